@@ -144,14 +144,23 @@ impl Campaign for C14 {
                         }
                     }
                     let call = stamp.fetch_add(1, Ordering::SeqCst);
-                    let res = match entry {
+                    // a panic inside an entry point (e.g. a coordinator registering twice because
+                    // two calls run the block at once) is an outcome to be judged, not a harness crash
+                    let res = std::panic::catch_unwind(std::panic::AssertUnwindSafe(|| match entry {
                         Entry::Execute => scheduler.execute(),
                         Entry::ParallelExecute(k) => scheduler.parallel_execute(Some(k)),
                         Entry::FallbackSequential => scheduler.fallback_sequential(),
-                    };
+                    }));
                     let ret = stamp.fetch_add(1, Ordering::SeqCst);
                     first_done.store(true, Ordering::Release);
-                    (t, entry, call, ret, res.map_err(|e| err_sig(&e.error)))
+                    let res = match res {
+                        Ok(r) => r.map_err(|e| err_sig(&e.error)),
+                        Err(p) => Err(format!(
+                            "PANIC:{}",
+                            p.downcast_ref::<String>().cloned().or_else(|| p.downcast_ref::<&str>().map(|s| s.to_string())).unwrap_or_default()
+                        )),
+                    };
+                    (t, entry, call, ret, res)
                 }));
             }
             hs.into_iter().map(|h| h.join().unwrap()).collect()
@@ -179,6 +188,16 @@ impl Campaign for C14 {
         rep.bump("rejected_calls", (history.len() - winners.len()) as u64);
         let hist_json: Vec<String> = history.iter().map(|h| format!("t{} {:?} call={} ret={} -> {:?}", h.0, h.1, h.2, h.3, h.4)).collect();
         let detail = serde_json::json!({"case": case.summary(), "history": hist_json});
+        if let Some(p) = history.iter().find(|h| matches!(&h.4, Err(m) if m.starts_with("PANIC:"))) {
+            rep.findings.push(finding(
+                "C14",
+                "ONCE",
+                format!("an entry-point call panicked instead of being rejected ({}): more than one call is running the block", p.4.clone().unwrap_err()),
+                iter_seed,
+                detail,
+            ));
+            return;
+        }
         if winners.len() != 1 {
             rep.findings.push(finding("C14", "ONCE", format!("{} of {} entry-point calls ran the block (exactly one must)", winners.len(), history.len()), iter_seed, detail));
             return;
